@@ -12,7 +12,7 @@ SIG = {"Terminate": 15, "Interrupt": 2, "Hangup": 1, "User1": 10}
 
 def quit_history(r, i):
     h = gen_history(r, i, maxops=6)
-    ops = [op for op in h["ops"] if not op["op"].startswith("delete")] or [{"at": 0, "op": "start", "yield": True}]
+    ops = [op for op in h["ops"] if not op["op"].startswith("delete") and op["op"] != "drop_handle"] or [{"at": 0, "op": "start", "yield": True}]
     t = ops[-1]["at"] + r.choice([0, 0, 5, 10, 20, 50, 60, 100])
     grace = r.choice([0, 7, 50, 100, 250])
     sig = r.choice(["Terminate", "Interrupt", "Hangup"])
